@@ -1,9 +1,15 @@
 from __future__ import annotations
 
+import sys
 from typing import TYPE_CHECKING, BinaryIO
 
 if TYPE_CHECKING:
     from dissect.cstruct.types import BaseType
+
+
+def _is_little(endian: str) -> bool:
+    """Whether the first bit field lives in the least significant bits of its storage unit (little endian byte order)."""
+    return endian == "<" or (endian in ("@", "=") and sys.byteorder == "little")
 
 
 class BitBuffer:
@@ -27,7 +33,7 @@ class BitBuffer:
             self._buffer = field_type._read(self.stream)
 
         if isinstance(self._buffer, bytes):
-            if self.endian == "<":
+            if _is_little(self.endian):
                 self._buffer = int.from_bytes(self._buffer, "little")
             else:
                 self._buffer = int.from_bytes(self._buffer, "big")
@@ -35,7 +41,7 @@ class BitBuffer:
         if bits > self._remaining:
             raise ValueError("Reading straddled bits is unsupported")
 
-        if self.endian == "<":
+        if _is_little(self.endian):
             v = self._buffer & ((1 << bits) - 1)
             self._buffer >>= bits
             self._remaining -= bits
@@ -64,7 +70,7 @@ class BitBuffer:
             # Don't let the value spill into the neighbouring bit fields
             raise OverflowError(f"Value {data!r} does not fit in a bit field of {bits} bits")
 
-        if self.endian == "<":
+        if _is_little(self.endian):
             self._buffer |= data << (self._type.size * 8 - self._remaining)
         else:
             self._buffer |= data << (self._remaining - bits)
